@@ -16,7 +16,9 @@
 #include <string.h>
 #include <unistd.h>
 #include <errno.h>
+#ifdef VERIF_SYSLOG_MODEL      /* only for runs that compile syslogoutput.c: pre-including <syslog.h> hides SYSLOG_NAMES-dependent declarations from sources that define that macro themselves */
 #include <syslog.h>
+#endif
 #include <sys/types.h>
 
 #ifdef VERIF_NATIVE
@@ -60,8 +62,10 @@ void verif_syslog1(int prio, const char *fmt, verif_arg_t a0);
 #define printf(...) VERIF_SEL4(__VA_ARGS__,VERIF_FP3,VERIF_FP2,VERIF_FP1,VERIF_FP0)(stdout,__VA_ARGS__)
 #undef sscanf
 #define sscanf(s,f,p0,p1) verif_sscanf2(s,f,(void*)(p0),(void*)(p1))
+#ifdef VERIF_SYSLOG_MODEL
 #undef syslog
 #define syslog(p,f,a) verif_syslog1(p,f,VERIF_ARG(a))
+#endif
 #endif /* !VERIF_NATIVE */
 
 /* ---- ghost state shared by packs and harnesses ------------------------------------ */
